@@ -359,4 +359,17 @@ theorem pyHash_iff (a b : CellInfo) (ha : Bytes.WF a.hash) (hb : Bytes.WF b.hash
   · intro h; exact natOfBE_inj _ _ ha hb hl h
   · intro h; simp only [CellInfo.pyHash, h]
 
+/-! ### the byte strings of the children as flattened lists (for `c01_repr_injective`) -/
+
+theorem ordDepthBytes_eq : ∀ (rs : List Cell), ordDepthBytes rs = (rs.map (fun c => Spec.be2 (ordDepth c))).flatten
+  | [] => rfl
+  | c :: cs => by simp [ordDepthBytes, ordDepthBytes_eq cs]
+
+theorem ordHashes_eq (H : Bytes → Bytes) : ∀ (rs : List Cell), ordHashes H rs = (rs.map (ordHash H)).flatten
+  | [] => rfl
+  | c :: cs => by simp [ordHashes, ordHashes_eq H cs]
+
+theorem ordHash_length (H : Bytes → Bytes) (h32 : ∀ x, (H x).length = 32) : ∀ c, (ordHash H c).length = 32
+  | .mk _ _ _ => by rw [ordHash]; exact h32 _
+
 end TonVerif.Proofs.OrdCell
